@@ -823,28 +823,45 @@ func (t *transitiveClosure) addExtensions(
 	if !opts.includeKnownExtensions {
 		return nil // nothing to do
 	}
-	for e, mode := range t.elements {
-		if mode != inclusionModeExplicit {
-			// we only collect extensions for messages that are directly reachable/referenced.
-			continue
-		}
-		msgDescriptor, ok := e.(*descriptorpb.DescriptorProto)
-		if !ok {
-			// not a message, nothing to do
-			continue
-		}
-		descriptorInfo := imageIndex.ByDescriptor[msgDescriptor]
-		for _, extendsDescriptor := range imageIndex.NameToExtensions[descriptorInfo.fullName] {
-			if mode := t.elements[extendsDescriptor]; mode == inclusionModeExcluded {
-				// This extension field is excluded.
+	// Adding an extension can make further messages explicit (for example the message
+	// type of the extension field), and their extensions must be collected as well.
+	// Whether a map entry created during a range is produced by that range is unspecified,
+	// so collect the explicit messages first and repeat until a pass finds no new one.
+	collected := make(map[*descriptorpb.DescriptorProto]struct{})
+	for {
+		var msgDescriptors []*descriptorpb.DescriptorProto
+		for e, mode := range t.elements {
+			if mode != inclusionModeExplicit {
+				// we only collect extensions for messages that are directly reachable/referenced.
 				continue
 			}
-			if err := t.addElement(extendsDescriptor, "", false, imageIndex, opts); err != nil {
-				return err
+			msgDescriptor, ok := e.(*descriptorpb.DescriptorProto)
+			if !ok {
+				// not a message, nothing to do
+				continue
+			}
+			if _, ok := collected[msgDescriptor]; ok {
+				continue
+			}
+			collected[msgDescriptor] = struct{}{}
+			msgDescriptors = append(msgDescriptors, msgDescriptor)
+		}
+		if len(msgDescriptors) == 0 {
+			return nil
+		}
+		for _, msgDescriptor := range msgDescriptors {
+			descriptorInfo := imageIndex.ByDescriptor[msgDescriptor]
+			for _, extendsDescriptor := range imageIndex.NameToExtensions[descriptorInfo.fullName] {
+				if mode := t.elements[extendsDescriptor]; mode == inclusionModeExcluded {
+					// This extension field is excluded.
+					continue
+				}
+				if err := t.addElement(extendsDescriptor, "", false, imageIndex, opts); err != nil {
+					return err
+				}
 			}
 		}
 	}
-	return nil
 }
 
 func (t *transitiveClosure) exploreCustomOptions(
